@@ -58,11 +58,13 @@ Check_FIX(r) ==
       g == q.f
       def == FromGo(Defs[r.d])
       keyed == Len(r.key) > 0
+      \* "twice_seq": the application re-stamped the sequence number before a second FixFrame
+      hdr == IF "seq2" \in DOMAIN r THEN [p.f EXCEPT !.seq = r.seq2] ELSE p.f
   IN Failed_(<< <<"H_input", Acceptable(r.dl, r.x0) /\ Lookup(r.dl, p.f.id) = r.d>>,
                 <<"no_panic", ~r.panic>>,
                 <<"fix_accepted", r.fix_ok>>,
                 <<"one_frame", q.k = "frame" /\ q.n = Len(r.out)>>,
-                <<"header_preserved", q.k = "frame" => HeaderEq(p.f, g)>>,
+                <<"header_preserved", q.k = "frame" => HeaderEq(hdr, g)>>,
                 <<"checksum_valid_for_edited_message", q.k = "frame" => g.ck = Checksum(g, CrcExtra(def))>>,
                 <<"edited_message_decodes", q.k = "frame" =>
                       (LET dd == Decode(def, g.payload, g.v = 2) IN dd.ok /\ dd.vals = Canon(def, r.vals, g.v = 2))>>,
